@@ -63,6 +63,8 @@ int vecSum(const std::vector<int> &v);
 void vecIota(std::vector<int> &v);
 void vecInc(std::vector<int> &v);
 void vecAlloc(std::vector<int> &v, int n);
+void vecInoutAlloc(std::vector<int> &v);
+void strPtrOut(std::string *s, int n);
 std::vector<int> vecRet(int n);
 int vecStrCount(const std::vector<std::string> &v);
 
